@@ -91,7 +91,7 @@ def extract(config="all", repo=None, crate="loom", target_dir=None, quiet=True):
     if os.path.exists(out) and os.path.getsize(out) > 1000:
         return out
     ensure_driver()
-    tdir = target_dir or os.path.join(CACHE, "target")
+    tdir = target_dir or os.environ.get("VERIF_TARGET_DIR") or os.path.join(CACHE, "target")
     os.makedirs(tdir, exist_ok=True)
     with open(os.path.join(tdir, ".verif.lock"), "w") as lk:
         fcntl.flock(lk, fcntl.LOCK_EX)
